@@ -193,6 +193,12 @@ def _typecheck(d):
         stmt(sc, body)
     for sc, body in d.initials:
         stmt(sc, body)
+    seen = set()
+    for sc in d.scopes:
+        for name in getattr(sc, 'implicit', []):
+            if (sc.mod.name, name) not in seen:
+                seen.add((sc.mod.name, name))
+                d.issue('R2', sc.mod.name, 'identifier %s not declared in module %s' % (name, sc.mod.name))
 
 
 def _width_of_range(rng, params, what):
@@ -574,7 +580,13 @@ def _lookup(sc, name):
     if s is None:
         if name in sc.params:
             return None
-        raise ElabError('identifier %s not declared in module %s' % (name, sc.mod.name))
+        # IEEE 1364-2005 4.5: an undeclared identifier used in an expression or port connection is an implicit scalar net
+        # (nothing drives it).  It is recorded and reported as lint finding R2 by _typecheck; simulation goes on with the
+        # implicit net, so that the behavioural consequence (e.g. a register whose clock is never connected) is visible too.
+        s = Sig(name, 1, False, 'wire')
+        s.declared = 0
+        sc.sigs[name] = s
+        sc.__dict__.setdefault('implicit', []).append(name)
     return s
 
 
